@@ -90,6 +90,11 @@ CHECKS.update({
         note=RENDER_NOTE, design='5/C15'),
 })
 
+CHECKS['C16'] = dict(
+    technique='Coq proof: each comparator ignores exactly the part it names (for every URL of the documented shape, by induction over the search), compound keeps each member; zero-changes theorem for ==-aligned token lists via a new invariant proof about the difflib model (first longest key run lies on the diagonal, == loops extend it over everything) under a freshness hypothesis, with the unrestricted statement refuted by a vm_compute witness (known finding); rules-off detection from block soundness + extracted-model correspondence (url_eq vs live comparators, htmldiff under every rule set) + observers on html_diff_render',
+    text='Theorems: for every digit-free prefix and any two 14-digit stamps the Wayback/UK comparators equate URLs differing only in the stamp; for every ;-free prefix the session comparator equates URLs differing only in the session id; a compound comparator equates exactly what some member equates. For all token lists that are pairwise == under the rules and whose key-different positions hold URLs occurring nowhere on the other side: single Equal opcode, counts (0,0,0) - any number of rewritten links/images at any position (partial: freshness hypothesis; C16_zero_refuted_without_freshness exhibits the failing pair, replayed on the code as known finding). With rules off a differing link target always gives change_count > 0 (from soundness of every matching block). Pattern sources and rule table regenerated and pinned. Tied by url_eq correspondence with the live classes, htmldiff correspondence under every rule set, and observers over generated pages x all rule permutations/spellings x first/last/adjacent sweeps.',
+    note=RENDER_NOTE + ' The three regular expressions are hand-specialised matchers tied by pinned sources and correspondence.', design='5/C16')
+
 NOT_YET = {}
 
 
